@@ -298,11 +298,14 @@ def _history(draw, tier, mem_ub, freq, can_pl, plm=None):
         if can_pl and _p(draw, 0.35):
             ops.append(dict(op="pl", v=draw(st.one_of(
                 st.none(), loguniform(-6, 0), loguniform(-6, 0),
-                st.just(1.0)))))
+                loguniform(-18, -10), st.just(1.0), st.just(0.0)))))
         if plm is not None and _p(draw, 0.35):
             none = _p(draw, 0.12)
             ops.append(dict(op="plm", v=None if none else draw(st.lists(
-                loguniform(-6, 0), min_size=plm, max_size=plm))))
+                st.one_of(loguniform(-6, 0), loguniform(-6, 0),
+                          loguniform(-6, 0), loguniform(-18, -10),
+                          st.just(0.0), st.just(1.0)),
+                min_size=plm, max_size=plm))))
         if freq and (i == forced or _p(draw, 0.6)):
             ops.append(draw(_tx_freq(tier, mem_ub)))
         else:
